@@ -90,7 +90,53 @@ pub fn generate_crate(
         progs.push(p);
         vectors.push(vs);
     }
+    if crate_idx == 0 {
+        for (p, v) in probes() {
+            progs.push(p);
+            vectors.push(v);
+        }
+    }
     (progs, vectors, stuck)
+}
+
+/// Permanent probes: hand-built programs that once exposed a defect (kept as ASTs so that they go
+/// through the reference semantics and the pipeline like every generated program).
+pub fn probes() -> Vec<(Program, Vec<Vec<Val>>)> {
+    use num_bigint::BigInt;
+    let u32t = Ty::Int(Ity::U32);
+    let lit = |k: u32| Expr::Lit(Ty::Int(Ity::U32), BigInt::from(k));
+    // corpus/C01/loop_in_macro.cairo: a loop inside an inline-macro argument (naming the loop
+    // function used to panic in DebugReplacer::enrich_function_names)
+    let lp = Expr::Loop(
+        8,
+        Box::new(Expr::Block(
+            vec![
+                Stmt::Expr(Expr::If(
+                    Box::new(Expr::Bin(Binop::Ge, u32t.clone(), Box::new(Expr::Var(1)), Box::new(Expr::Var(0)))),
+                    Box::new(Expr::Break(Ty::unit(), Box::new(Expr::Bool(true)))),
+                    Box::new(unit_expr()),
+                )),
+                Stmt::Expr(Expr::Assign(
+                    1,
+                    Box::new(Expr::Bin(Binop::Add, u32t.clone(), Box::new(Expr::Var(1)), Box::new(lit(1)))),
+                )),
+            ],
+            Box::new(unit_expr()),
+        )),
+    );
+    let cond = Expr::Block(vec![Stmt::Let(1, u32t.clone(), lit(0))], Box::new(lp));
+    let body = Expr::Block(
+        vec![Stmt::Expr(Expr::Assert(Box::new(cond), PanicMsg::Bytes("x".into())))],
+        Box::new(Expr::Var(0)),
+    );
+    let p = Program {
+        tag: "probe_loop_in_macro".into(),
+        structs: vec![],
+        enums: vec![],
+        fns: vec![FnDecl { params: vec![Param { name: 0, ty: u32t.clone(), by_ref: false }], ret: u32t, body }],
+    };
+    let vs = [3u32, 0, 7].iter().map(|k| vec![Val::Int(BigInt::from(*k))]).collect();
+    vec![(p, vs)]
 }
 
 /// Source text of a crate and, per program, the (first, last) line it occupies.
